@@ -1,4 +1,5 @@
 #!/bin/bash
+export VERIF_SCRATCH_EVIDENCE=${VERIF_SCRATCH_EVIDENCE:-/tmp/verif_seed_evidence}   # evidence of runs against a seeded tree is not evidence about /repo
 # try_seed.sh <seed-id> <check-id>...: apply seeded/<seed-id>/patch.diff to /repo, run the checks, undo.
 sid=$1; shift
 git -C /repo apply /verif/seeded/$sid/patch.diff || exit 2
